@@ -18,7 +18,7 @@ FlatAgrees == \A o \in Owners, d \in Data : \A t \in d.types : InFlatIsMembershi
 OthersKept == [][ \/ Flat(db') = Flat(db)
                   \/ \E p \in 1..Len(Flat(db')) : Flat(db) = Without(Flat(db'), p)
                   \/ \E p \in 1..Len(Flat(db))  : Flat(db') = Without(Flat(db), p)
-                  \/ last'.op \in {"appendlist", "load"} ]_vars
+                  \/ last'.op \in {"appendlist", "load", "removelist"} ]_vars
 AppendAddsOne == [][ last'.op = "append" /\ last'.res = "ok" =>
                        /\ Len(Flat(db')) = Len(Flat(db)) + 1
                        /\ ~InFlat(db, last'.t, last'.o, NormId(last'.t, CHOOSE d \in Data : d.id = last'.d))
